@@ -360,6 +360,44 @@ def same_end(ast: list, rng: random.Random) -> list | None:
     return ast
 
 
+def same_start(ast: list, rng: random.Random) -> list | None:
+    """Beyond fragment F: the first event of every branch of one AND/OR fork gets the same new
+    type, so the event before the fork is followed by that type with counts 1..n (different
+    counts in different jobs for OR forks).  Used for the ingestion-level monitor of C03."""
+    import copy
+    ast = copy.deepcopy(ast)
+    forks: list = []
+
+    def walk(seq: list) -> None:
+        for st in seq:
+            if st[0] in ("and", "or", "xor"):
+                if st[0] in ("and", "or") and all(b and b[0][0] == "ev" for b in st[1]):
+                    forks.append(st)
+                for b in st[1]:
+                    walk(b)
+            elif st[0] == "loop":
+                walk(st[1])
+    walk(ast)
+    if not forks:
+        return None
+    f = rng.choice(forks)
+    for b in f[1]:
+        b[0] = ("ev", "SAME0")
+    return ast
+
+
+def random_counts_def(rng: random.Random) -> list:
+    """A definition whose executions carry successor/predecessor multisets with counts > 1."""
+    for _ in range(2000):
+        base = random_core(rng)
+        t = same_start(base, rng) if rng.random() < 0.6 else same_end(base, rng)
+        if t is not None and rng.random() < 0.4:
+            t = same_end(t, rng) or t
+        if t is not None:
+            return t
+    raise RuntimeError("could not generate a definition with counts")
+
+
 def random_same_end(rng: random.Random) -> list:
     for _ in range(2000):
         if rng.random() < 0.5:
